@@ -6,7 +6,8 @@
    behaviour classes, and a consumer that stores what comes out of Listen().  Events, in one global
    order (a mutex taken inside the environment call):
 
-     Open part peer n      the requesting side completed its request for part of block n to peer
+     Open part peer        NewStream to peer succeeded (logged atomically with its context check)
+     Req part peer n       the requesting side completed its request for part of block n
      DialFail peer         NewStream failed (the code then removes the peer)
      NoPeers               the peerstore was empty when a peer was to be drawn
      Recv k c h            the consumer took a body from Listen(): k = "good" (block c,h) or "err"
@@ -37,7 +38,8 @@ TReset ==
   /\ hand' = NoBody /\ emitted' = FALSE /\ cancelled' = FALSE /\ iters' = 0 /\ lucky' = FALSE
   /\ act' = [name |-> "Init"]
 
-TOpen     == IsEvent("Open") /\ Open /\ act'.name = "Open" /\ act'.part = E.part /\ act'.peer = E.peer /\ n = E.n
+TOpen     == IsEvent("Open") /\ Open /\ act'.name = "Open" /\ act'.part = E.part /\ act'.peer = E.peer
+TReq      == IsEvent("Req") /\ asg[E.part] = E.peer /\ n = E.n /\ UNCHANGED vars
 TDialFail == IsEvent("DialFail") /\ Open /\ act'.name \in {"DialFail", "OpenCancelled"} /\ act'.peer = E.peer
 TNoPeers  == IsEvent("NoPeers") /\ Open /\ act'.name = "NoPeers"
 TRecv     == IsEvent("Recv") /\ Recv /\ act'.k = E.k /\ (E.k = "good" => act'.c = E.c /\ act'.h = E.h)
@@ -53,7 +55,7 @@ Silent ==
      \/ BridgeInnerCancel \/ BridgeFwdCancel \/ LoopTop
   /\ l' = l
 
-TraceNext == TReset \/ TOpen \/ TDialFail \/ TNoPeers \/ TRecv \/ TStore \/ TDrop \/ TCancel \/ TExit \/ Silent
+TraceNext == TReset \/ TOpen \/ TReq \/ TDialFail \/ TNoPeers \/ TRecv \/ TStore \/ TDrop \/ TCancel \/ TExit \/ Silent
 
 ASSUME TLCSet(1, 0)
 HighWater == IF l > TLCGet(1) THEN TLCSet(1, l) ELSE TRUE
